@@ -6,10 +6,15 @@ pub mod c05;
 pub mod c07;
 pub mod c08;
 pub mod c09;
+pub mod c10;
 pub mod c11;
 pub mod c12;
 pub mod c13;
 pub mod c14;
+pub mod c15;
+pub mod c16;
+pub mod c17;
+pub mod c18;
 pub mod c20;
 
 use crate::infra::{CheckResult, Ctx};
@@ -27,10 +32,15 @@ pub fn run(ctx: &Ctx, replay: Option<&J>) -> Option<CheckResult> {
         "C07" => c07::run(ctx, replay),
         "C08" => c08::run(ctx, replay),
         "C09" => c09::run(ctx, replay),
+        "C10" => c10::run(ctx, replay),
         "C11" => c11::run(ctx, replay),
         "C12" => c12::run(ctx, replay),
         "C13" => c13::run(ctx, replay),
         "C14" => c14::run(ctx, replay),
+        "C15" => c15::run(ctx, replay),
+        "C16" => c16::run(ctx, replay),
+        "C17" => c17::run(ctx, replay),
+        "C18" => c18::run(ctx, replay),
         "C20" => c20::run(ctx, replay),
         _ => return None,
     })
